@@ -51,8 +51,38 @@ def lines(tier, seed):
     return out
 
 
+MEM_TERMS = ['eax', 'ebx', 'esp', 'bx', '{N}', '4', 'foo', 'eax * 4', 'ebx * {N}', '2 * ecx']
+MEM_CONTEXTS = ['mov eax , [ %s ]', 'lea eax , [ %s ]', 'mov DWORD PTR [ %s ] , eax', 'push DWORD PTR [ %s ]', 'mov al , BYTE PTR es : [ %s ]',
+                'fld QWORD PTR [ %s ]', 'jmp [ %s ]', 'mov eax , foo [ %s ]']
+
+
+def mem_lines(tier, seed):
+    """address expressions: 1 to 3 terms (registers, scaled registers, numbers, names) joined by + and -, in the contexts
+    where an address is accepted - longer than the free token sequences reach"""
+    rnd = random.Random(seed + 7)
+    exprs = list(MEM_TERMS)
+    for a, b in itertools.product(MEM_TERMS, repeat=2):
+        for o in '+-':
+            exprs.append('%s %s %s' % (a, o, b))
+    e3 = []
+    for a, b, c in itertools.product(MEM_TERMS, repeat=3):
+        for o1, o2 in itertools.product('+-', repeat=2):
+            e3.append('%s %s %s %s %s' % (a, o1, b, o2, c))
+    out = []
+    for ci, ctx in enumerate(MEM_CONTEXTS if tier == 'thorough' else MEM_CONTEXTS[:4]):
+        es = list(exprs)
+        if tier == 'quick':
+            r3 = list(e3)
+            rnd.shuffle(r3)
+            es = (es if ci < 2 else es[:len(MEM_TERMS)]) + r3[:700 if ci < 2 else 150]
+        else:
+            es += e3
+        out += [ctx % e for e in es]
+    return out
+
+
 def jobs(tier, seed):
-    ls = lines(tier, seed)
+    ls = lines(tier, seed) + mem_lines(tier, seed)
     random.Random(seed).shuffle(ls)
     n = 800
     return [('asmtot', tier, ls[i:i + n]) for i in range(0, len(ls), n)]
